@@ -894,6 +894,137 @@ brk('c14_key_from_float', 'C14', OBJ, '''            Value::Bool(v) => Ok(Key::B
 brk('c13_literal_uint_as_int', 'C13', OBJ, '''            Val::UInt(u) => Value::UInt(u),''', '''            Val::UInt(u) if u <= i64::MAX as u64 => Value::Int(u as i64),
             Val::UInt(u) => Value::UInt(u),''')
 brk('c18_key_text_quoted', 'C18', OBJ, '''            Key::String(v) => write!(f, "{}", v),''', '''            Key::String(v) => write!(f, "\\"{}\\"", v),''')
+neu('n_member_early_return', 'C14 C19 C02 C07', OBJ, '''        match (child, ctx.has_function(&name)) {
+            (None, false) => ExecutionError::NoSuchKey(name).into(),
+            (Some(child), _) => child.into(),
+            (None, true) => Value::Function(name, Some(self.into())).into(),
+        }''', '''        if let Some(child) = child {
+            return child.into();
+        }
+        if ctx.has_function(&name) {
+            Value::Function(name, Some(self.into())).into()
+        } else {
+            ExecutionError::NoSuchKey(name).into()
+        }''')
+neu('n_map_eq_as_ref', 'C09 C02', OBJ, '''        *self.map == *other.map''', '''        self.map.as_ref() == other.map.as_ref()''')
+neu('n_add_variable_value_first', 'C11 C10 C05', 'interpreter/src/context.rs', '''        match self {
+            Context::Root { variables, .. } => {
+                variables.insert(name.into(), value.into());
+            }
+            Context::Child { variables, .. } => {
+                variables.insert(name.into(), value.into());
+            }
+        }
+    }
+
+    // todo! The Into<String> here''', '''        let value: Value = value.into();
+        let variables = match self {
+            Context::Root { variables, .. } => variables,
+            Context::Child { variables, .. } => variables,
+        };
+        variables.insert(name.into(), value);
+    }
+
+    // todo! The Into<String> here''')
+neu('n_all_arguments_collect', 'C20 C07 C02', 'interpreter/src/resolvers.rs', '''        let mut args = Vec::with_capacity(ctx.args.len());
+        for arg in ctx.args.iter() {
+            args.push(Value::resolve(arg, ctx.ptx)?);
+        }
+        Ok(Value::List(args.into()))''', '''        let args = ctx
+            .args
+            .iter()
+            .map(|arg| Value::resolve(arg, ctx.ptx))
+            .collect::<Result<Vec<_>, _>>()?;
+        Ok(Value::List(args.into()))''')
+neu('n_key_display_direct', 'C18 C17 C14', OBJ, '''            Key::Int(v) => write!(f, "{}", v),''', '''            Key::Int(v) => Display::fmt(v, f),''')
+neu('n_negate_arms_reordered', 'C08 C02', OBJ, '''                                Value::Float(f) => Ok(Value::Float(-f)),
+                                value => {
+                                    Err(ExecutionError::UnsupportedUnaryOperator("minus", value))
+                                }''', '''                                value @ (Value::UInt(_) | Value::Bool(_)) => {
+                                    Err(ExecutionError::UnsupportedUnaryOperator("minus", value))
+                                }
+                                Value::Float(f) => Ok(Value::Float(-f)),
+                                value => {
+                                    Err(ExecutionError::UnsupportedUnaryOperator("minus", value))
+                                }''')
+neu('n_visit_int_strip_sign_first', 'C13 C01 C04', PAR, '''        let val = match if let Some(string) = string.strip_prefix("0x") {
+            i64::from_str_radix(string, 16)
+        } else if let Some(string) = string.strip_prefix("-0x") {
+            // `from_str_radix` wants the sign directly in front of the digits
+            i64::from_str_radix(&format!("-{string}"), 16)
+        } else {''', '''        let val = match if let Some(hex) = string.strip_prefix("-0x") {
+            i64::from_str_radix(&format!("-{hex}"), 16)
+        } else if let Some(hex) = string.strip_prefix("0x") {
+            i64::from_str_radix(hex, 16)
+        } else {''')
+neu('n_parse_duration_zero_guard_len', 'C15 C02', DURF, '''    if i == "0" {''', '''    if i.len() == 1 && i.starts_with('0') {''')
+neu('n_printer_is_negative', 'C15 C02', DURF, '''    let neg = nanos < 0;''', '''    let neg = nanos.is_negative();''')
+neu('n_parse_duration_sign_let', 'C15 C02', DURF, '''    Ok((i, if neg.is_some() { -duration } else { duration }))''', '''    let signed = match neg {
+        Some(()) => -duration,
+        None => duration,
+    };
+    Ok((i, signed))''')
+neu('n_select_built_in_a_let', 'C04 C14 C07 C01', PAR, '''            self.helper.next_expr(
+                op.as_ref(),
+                Expr::Select(SelectExpr {
+                    operand: Box::new(operand),
+                    field,
+                    test: false,
+                }),
+            )''', '''            let select = SelectExpr {
+                operand: Box::new(operand),
+                field,
+                test: false,
+            };
+            self.helper.next_expr(op.as_ref(), Expr::Select(select))''')
+neu('n_list_literal_push_via_let', 'C04 C14 C07 C01', PAR, '''                    list.push(self.visit(exp.as_ref()));''', '''                    let element = self.visit(exp.as_ref());
+                    list.push(element);''')
+neu('n_int_cmp_ufcs', 'C09 C02', OBJ, '''            (Value::Int(a), Value::Int(b)) => Some(a.cmp(b)),''', '''            (Value::Int(a), Value::Int(b)) => Some(Ord::cmp(a, b)),''')
+neu('n_report_variables_map_deref', 'C19', REF, '''        self.variables.iter().copied().collect()''', '''        self.variables.iter().map(|name| *name).collect()''')
+neu('n_map_literal_key_typed', 'C14 C07 C02', OBJ, '''                    let key = Value::resolve(k, ctx)?
+                        .try_into()
+                        .map_err(ExecutionError::UnsupportedKeyType)?;''', '''                    let key: Key = match Value::resolve(k, ctx)?.try_into() {
+                        Ok(key) => key,
+                        Err(value) => return Err(ExecutionError::UnsupportedKeyType(value)),
+                    };''')
+neu('n_value_list_eq_as_slice', 'C09 C02', OBJ, '''            (Value::List(a), Value::List(b)) => **a == **b,''', '''            (Value::List(a), Value::List(b)) => a.as_slice() == b.as_slice(),''')
+neu('n_comprehension_list_while_let', 'C10 C11 C07 C06 C19 C02', OBJ, '''                        for item in items.deref() {
+                            if !Value::resolve(&comprehension.loop_cond, &ctx)?.to_bool() {
+                                break;
+                            }
+                            ctx.add_variable_from_value(&comprehension.iter_var, item.clone());''', '''                        let mut elements = items.iter();
+                        while let Some(item) = elements.next() {
+                            if !Value::resolve(&comprehension.loop_cond, &ctx)?.to_bool() {
+                                break;
+                            }
+                            ctx.add_variable_from_value(&comprehension.iter_var, item.clone());''')
+neu('n_comprehension_cond_let', 'C10 C11 C07 C06 C02', OBJ, '''                        for key in map.map.deref().keys() {
+                            if !Value::resolve(&comprehension.loop_cond, &ctx)?.to_bool() {
+                                break;
+                            }''', '''                        for key in map.map.deref().keys() {
+                            let go_on = Value::resolve(&comprehension.loop_cond, &ctx)?.to_bool();
+                            if !go_on {
+                                break;
+                            }''')
+neu('n_json_map_key_format', 'C18 C17', 'interpreter/src/json.rs', '''                    obj.insert(k.to_string(), v.json()?);''', '''                    let member = v.json()?;
+                    obj.insert(k.to_string(), member);''')
+neu('n_resolve_all_collect', 'C20 C07 C02', OBJ, '''        let mut res = Vec::with_capacity(expr.len());
+        for expr in expr {
+            res.push(Value::resolve(expr, ctx)?);
+        }
+        Ok(Value::List(res.into()))''', '''        let res = expr
+            .iter()
+            .map(|expr| Value::resolve(expr, ctx))
+            .collect::<Result<Vec<_>, _>>()?;
+        Ok(Value::List(res.into()))''')
+neu('n_timestamp_difference_let', 'C16 C15 C02', OBJ, '''            (Value::Timestamp(l), Value::Timestamp(r)) => Value::Duration(l - r).into(),''', '''            (Value::Timestamp(l), Value::Timestamp(r)) => {
+                let difference = l - r;
+                Value::Duration(difference).into()
+            }''')
+neu('n_comprehension_result_let', 'C10 C11 C19 C07', OBJ, '''                Value::resolve(comprehension.result.deref(), &ctx)
+            }''', '''                let result = Value::resolve(comprehension.result.deref(), &ctx);
+                result
+            }''')
 
 
 
